@@ -44,8 +44,9 @@ Property clauses (the only sources of a VIOLATION), per the statement of C20:
                               no column twice
 Names and lags (second follow-up): the grammar also uses variable names that are locals of the generated
 RunOneStep / Iterator (err, cnt = 500.0, new_vector, in_vec - the loop state must stay the module's own:
-C20_LoopStateOwn), a lag of a lagged variable (LAG2_y = LAG_y(k-1)), and names of attributes / methods of the
-generated class (STEP, main, orig_vector, MaxIterations): such a block must be refused by the generator's
+C20_LoopStateOwn), a lag of a lagged variable (LAG2_y = LAG_y(k-1)), two lags of ONE lagged variable in any declaration order
+(every series the module keeps must get exactly one value per period - C20_StepAppendsAll), and names of attributes / methods of the
+generated class (STEP, main, orig_vector, MaxIterations; NEW_x next to x - the Iterator's local): such a block must be refused by the generator's
 constructor (it is then not an accepted block); if it is accepted its module is judged like any other.
 
 Readings (the weaker one where the statement leaves a choice):
@@ -72,8 +73,9 @@ from harness import core
 
 NAMESETS = [['x', 'y', 'z', 'c0'],                               # = NameSets of MC_Codegen
             ['err', 'new_vector', 'in_vec', 'cnt'],
-            ['STEP', 'main', 'orig_vector', 'MaxIterations']]
-PARAM_VALUE = [2, 500, 2]                                         # the parameter line: c0 = 2.0 / cnt = 500.0 / ...
+            ['STEP', 'main', 'orig_vector', 'MaxIterations'],
+            ['x', 'NEW_x', 'z', 'c0']]
+PARAM_VALUE = [2, 500, 2, 2]                                         # the parameter line: c0 = 2.0 / cnt = 500.0 / ...
 LOOP_NAMES = ('err', 'cnt')                                       # = LoopNames of Codegen
 OWN_NAMES = ('STEP', 'MaxTime', 'MaxIterations', 'Err_Tolerance', 'PrintIterations', 'VariableList', 'main',
              'RunOneStep', 'Iterator', 'CalcError', 'WriteCSV', 'CreateCsvString', 'orig_vector')   # = ModuleOwnNames
@@ -104,9 +106,13 @@ def system(block):
                 e['same'][u] = F(A[i][j], 4)
         if i == 0:
             if block['lag'] in (1, 2):
-                e['lag'][last] = F(1, 2) if block['lag'] == 1 else F(1)
-            elif block['lag'] == 3:
-                e['lag']['LAG_' + last] = F(1, 2)          # rendered as LAG2_<last> = LAG_<last>(k-1)
+                e['lag_terms'] = [('LAG_' + last, last, F(1, 2) if block['lag'] == 1 else F(1))]
+            elif block['lag'] >= 3:                        # LAG2_<last> = LAG_<last>(k-1)
+                e['lag_terms'] = [('LAG2_' + last, 'LAG_' + last, F(1, 2))]
+                if block['lag'] >= 4:                      # LAGB_<last> = LAG_<last>(k-1) as well
+                    e['lag_terms'].append(('LAGB_' + last, 'LAG_' + last, F(1, 4)))
+            for dummy, of, c in e.get('lag_terms', []):
+                e['lag'][of] = e['lag'].get(of, F(0)) + c
             if block['exo']:
                 e['same']['G'] = F(1)
             if block['cst'] == 2:
@@ -121,18 +127,19 @@ def system(block):
         eqs[v] = e
     if block['cst'] == 2:
         eqs[param] = {'same': {}, 'lag': {}, 'const': F(PARAM_VALUE[nm]), 'k': F(0), 'const_text': None}
-    if block['lag'] == 3:
+    if block['lag'] >= 3:
         # the lagged variable LAG_<last> is itself lagged: its own history matters (LAG_<last>(0) = 0)
         eqs['LAG_' + last] = {'same': {}, 'lag': {last: F(1)}, 'const': F(0), 'k': F(0), 'const_text': None,
                               'derived': True}
     if block['userT'] == 'endo':
-        eqs['t'] = {'same': {}, 'lag': {'t': F(1)}, 'const': F(1), 'k': F(0), 'const_text': None}
+        eqs['t'] = {'same': {}, 'lag': {'t': F(1)}, 'const': F(1), 'k': F(0), 'const_text': None,
+                    'lag_terms': [('t_minus_1', 't', F(1))]}
     elif block['userT'] == 'none':
         eqs['t'] = {'same': {}, 'lag': {}, 'const': F(0), 'k': F(1), 'const_text': None, 'injected': True}
     lagname = {}
     if block['lag']:
         lagname[last] = 'LAG_' + last
-    if block['lag'] == 3:
+    if block['lag'] >= 3:
         lagname['LAG_' + last] = 'LAG2_' + last
     if block['userT'] == 'endo':
         lagname['t'] = 't_minus_1'
@@ -158,8 +165,8 @@ def _rhs(e, lagname):
     terms = []          # (sign, text)
     for u, c in e['same'].items():
         terms.append((c, u))
-    for of, c in e['lag'].items():
-        terms.append((c, lagname[of]))
+    for nm, dummy, c in e.get('lag_terms', []):
+        terms.append((c, nm))
     out = ''
     for c, nm in terms:
         mag = abs(c)
@@ -174,6 +181,13 @@ def _rhs(e, lagname):
     return out
 
 
+def lag_lines(block):
+    """(lagged name, source) of the lag lines of the block, in text order (= MkBlock.lagged without t_minus_1)."""
+    last = NAMESETS[block.get('nm', 0)][block['n'] - 1]
+    l1, l2, lb = ('LAG_' + last, last), ('LAG2_' + last, 'LAG_' + last), ('LAGB_' + last, 'LAG_' + last)
+    return {0: [], 1: [l1], 2: [l1], 3: [l1, l2], 4: [l1, l2, lb], 5: [l2, lb, l1], 6: [l2, l1, lb]}[block['lag']]
+
+
 def render(block):
     """The text of the block, exactly as it is given to the generator and to the in-process solver."""
     sysm = system(block)
@@ -184,11 +198,8 @@ def render(block):
         if v == 't':
             continue
         lines.append('%s = %s' % (v, _rhs(e, sysm['lagname'])))
-    if block['lag']:
-        spelling = '(t-1)' if block['lag'] == 2 else '(k-1)'
-        lines.append('%s = %s%s' % (sysm['lagname'][sysm['last']], sysm['last'], spelling))
-    if block['lag'] == 3:
-        lines.append('LAG2_%s = LAG_%s(k-1)' % (sysm['last'], sysm['last']))
+    for nm, of in lag_lines(block):
+        lines.append('%s = %s%s' % (nm, of, '(t-1)' if block['lag'] == 2 else '(k-1)'))
     if block['userT'] == 'endo':
         lines.append('t = t_minus_1 + 1.0')
         lines.append('t_minus_1 = t(k-1)')
@@ -234,10 +245,7 @@ def check_grammar_binding(block):
         raise core.MachineryError('grammar/driver disagree on the names read: %r vs %r' % (want, got))
     lag_want = [[d['name'], d['of']] for d in block['lagged']]
     lag_got = []
-    if block['lag']:
-        lag_got.append([sysm['lagname'][sysm['last']], sysm['last']])
-    if block['lag'] == 3:
-        lag_got.append(['LAG2_' + sysm['last'], 'LAG_' + sysm['last']])
+    lag_got.extend([nm, of] for nm, of in lag_lines(block))
     if block['userT'] == 'endo':
         lag_got.append(['t_minus_1', 't'])
     exo_want = [[d['name'], d['len']] for d in block['exos']]
@@ -530,7 +538,8 @@ def _one_generation(block, gen, text, path, uid, cache):
                               if nm not in sec['iterUnpack'] and nm not in math_ns})
     packed = [p['name'] for p in sec['pack']]
     info['loop_captured'] = [] if sec['loopAfterPack'] else sorted(set(packed) & set(LOOP_NAMES))
-    info['own_captured'] = sorted(set(packed) & set(OWN_NAMES))
+    info['own_captured'] = sorted((set(packed) & set(OWN_NAMES)) |
+                                  {nm for nm in packed if nm.startswith('NEW_') and nm[4:] in packed})
     info['chained_lags'] = sorted({p['series'] for p in sec['pack'] if p['idx'] == 'STEP-1'} &
                                   {str(nm) for nm, dummy in gen.Lagged})
 
@@ -702,7 +711,9 @@ def execute_all(blocks, scratch, regen):
 def _signature_of_generation(clause, block, want, endo, info):
     """What is wrong for this clause with the module of one generation (None: nothing)."""
     root = None
-    if info['own_captured']:
+    if info['own_captured'] and all(nm.startswith('NEW_') for nm in info['own_captured']):
+        root = 'block-variable-named-NEW_<variable>-captures-iterator-local'
+    elif info['own_captured']:
         root = 'block-variable-captures-name-of-generated-class'
     elif info['loop_captured']:
         root = 'loop-state-captured-by-block-variable'
@@ -723,7 +734,12 @@ def _signature_of_generation(clause, block, want, endo, info):
         probe = _signature_of_generation(clause, block, want, endo, dict(info, own_captured=[], loop_captured=[]))
         return root if probe is not None else None
     if clause == 'C20_StepAppendsAll':
-        short = sorted(nm for nm in endo if len(info['series'].get(nm, [])) != block['maxTime'] + 1)
+        kept = endo + [nm for nm in info['chained_lags'] if nm in info['series']]
+        long_ = sorted(nm for nm in kept if len(info['series'].get(nm, [])) > block['maxTime'] + 1)
+        if long_:
+            kind = 'lagged' if set(long_) <= set(info['chained_lags']) else 'variable'
+            return ('lagged-variable' if kind == 'lagged' else 'variable') + '-series-gets-several-values-per-period'
+        short = sorted(nm for nm in kept if len(info['series'].get(nm, [])) < block['maxTime'] + 1)
         return ('series-without-a-value-per-period:' + ','.join(short)) if short else None
     if clause == 'C20_StepSatisfiesEquations':
         for k in sorted(info['flags'], key=int):
@@ -853,7 +869,8 @@ def run(rep):
     blocks = []
     for b in core.json_of_printed(res, 'BEH'):
         if b.get('rejected'):
-            if not set(OWN_NAMES) & {d['name'] for d in b['block']['endo'] + b['block']['lagged'] + b['block']['exos']}:
+            names = {d['name'] for d in b['block']['endo'] + b['block']['lagged'] + b['block']['exos']}
+            if not (set(OWN_NAMES) & names or any('NEW_' + v in names for v in names)):
                 raise core.MachineryError('the model rejects a block without a colliding name %r' % (b,))
         elif b.get('status') != 'ok' or b.get('steps') != b['block']['maxTime'] or b.get('generations') != 2:
             raise core.MachineryError('the model predicts a failing run for block %r' % (b,))
@@ -869,7 +886,9 @@ def run(rep):
     rep.extra['blocks_without_user_time'] = sum(1 for b in blocks if b['userT'] == 'none')
     rep.extra['blocks_with_names_of_generated_locals'] = sum(1 for b in blocks if b['nm'] == 1)
     rep.extra['blocks_with_names_of_the_generated_class'] = sum(1 for b in blocks if b['nm'] == 2)
-    rep.extra['blocks_with_a_lag_of_a_lagged_variable'] = sum(1 for b in blocks if b['lag'] == 3)
+    rep.extra['blocks_with_a_variable_named_NEW_other_variable'] = sum(1 for b in blocks if b['nm'] == 3 and b['n'] > 1)
+    rep.extra['blocks_with_a_lag_of_a_lagged_variable'] = sum(1 for b in blocks if b['lag'] >= 3)
+    rep.extra['blocks_with_two_lags_of_one_lagged_variable'] = sum(1 for b in blocks if b['lag'] >= 4)
     # regeneration (main() twice on one generator object): every block in the thorough tier, a seeded third
     # of the blocks in the quick tier
     rng = random.Random(rep.seed)
